@@ -5,7 +5,7 @@
    particular for [is_strictness_fulfilled s]; what that predicate means is the subject of
    [strictness_eval_sound].  [names_distinct]: the candidate set is a set (the table is indexed by model name). *)
 From Coq Require Import QArith ZArith List Bool PArith Arith Permutation Sorted.
-From PV Require Import Base.PyData Base.Expr Base.Interp C19.Model C19.Spec C19.Penalty C19.Summary C19.Categorize C19.Proofs.
+From PV Require Import Base.PyData Base.Expr Base.Interp C19.Model C19.Spec C19.Penalty C19.Summary C19.Categorize C19.Proofs C19.Stats C19.StatsProofs.
 Import ListNotations.
 Local Open Scope nat_scope.
 
@@ -269,11 +269,31 @@ Theorem summary_reports_final_step :
     summarize_step name r None = Ok row ->
     sr_minsucc row = match s_minsucc r with Some b => b | None => false end /\
     sr_nerr row = s_nerr r /\ sr_nwarn row = s_nwarn r /\ sr_step row = None /\
+    sr_runtime_total row = s_runtime_total r /\
     match s_ofv_iter r with
     | None => sr_ofv row = s_ofv r
     | Some t => last_of_step (max_step t) t = Some (sr_ofv row)
+    end /\
+    (* estimation run time: that of the last step of the OFV table; of the last row without such a table; the total
+       run time when there is no per-step table *)
+    match s_est_runtime_iter r with
+    | None => sr_est_runtime row = s_runtime_total r
+    | Some l => match s_ofv_iter r with
+                | Some t => nth_error l (max_step t - 1) = Some (sr_est_runtime row)
+                | None => nth_error (rev l) 0 = Some (sr_est_runtime row)
+                end
     end.
 Proof. exact summary_final_lemma. Qed.
+(* summarize_errors: every entry of every model's log appears, indexed by model, category and its position in that
+   model's log, and nothing else does (the table is a permutation of exactly these rows) *)
+Theorem summarize_errors_exact :
+  forall entries, Permutation (summarize_errors entries) (error_rows entries).
+Proof. exact summarize_errors_perm. Qed.
+Theorem summarize_errors_complete :
+  forall entries name log k c m,
+    In (name, Some log) entries -> nth_error log k = Some (c, m) ->
+    In (mkErow name c k m) (summarize_errors entries).
+Proof. exact summarize_errors_complete_lemma. Qed.
 Theorem last_of_step_is_last :
   forall (step : nat) (l : list (nat * option Q)) v,
     last_of_step step l = Some v <->
@@ -326,3 +346,104 @@ Theorem zero_eta_term_vanishes :
     aeval look (Mul (Sym eta) a) = AConst (Some 0%Q) /\ aeval look (Mul a (Sym eta)) = AConst (Some 0%Q)
     /\ aeval look (Fn1 F_EXP (Sym eta)) = AConst (Some 1%Q).
 Proof. exact zero_factor_vanishes. Qed.
+
+
+(* ---- the arithmetic statistics of the resampling / diagnostic tools (Stats.v): the code's array pipeline equals the
+   documented formula BY PARAMETER NAME.  [sqrtq] is numpy.sqrt as an arbitrary function; series = labelled values with
+   NaN = None; all replicate lists, label orders, missing and extra labels. *)
+
+(* bootstrap: the statistics of column j of the stacked table (labels of the first replicate, replicates aligned on
+   their labels, NaN skipped, ddof = 1) are the documented statistics of the parameter named by that column:
+   mean, bias = mean - original, standard error = sample sd, RSE = stderr / mean *)
+Theorem bootstrap_stats_by_name :
+  forall sqrtq reps orig j p,
+    nth_error (boot_cols reps) j = Some p -> boot_stat sqrtq reps orig j = doc_boot_stat sqrtq reps orig p.
+Proof. exact bootstrap_stats_by_name_lemma. Qed.
+Theorem bootstrap_cov_by_name :
+  forall reps i j p q,
+    nth_error (boot_cols reps) i = Some p -> nth_error (boot_cols reps) j = Some q ->
+    boot_cov reps i j = doc_boot_cov reps p q.
+Proof. exact bootstrap_cov_by_name_lemma. Qed.
+(* the documented formulas spelled out over the available (non-NaN) estimates l of the parameter, |l| >= 2 *)
+Theorem bootstrap_formulas :
+  forall sqrtq reps orig p l,
+    avail (values_of reps p) = l -> 2 <= length l ->
+    let n := natQ (length l) in
+    let m := (qsum l / n)%Q in
+    let v := (qsum (map (fun x => (x - m) * (x - m))%Q l) / natQ (length l - 1))%Q in
+    bs_mean (doc_boot_stat sqrtq reps orig p) = Some m /\
+    bs_stderr (doc_boot_stat sqrtq reps orig p) = Some (sqrtq v) /\
+    bs_rse (doc_boot_stat sqrtq reps orig p) = (if Qeq_bool m 0 then None else Some (sqrtq v / m)%Q) /\
+    bs_bias (doc_boot_stat sqrtq reps orig p) =
+      match orig with Some o => match sget o p with Some x => Some (m - x)%Q | None => None end | None => None end.
+Proof. exact doc_boot_formulas. Qed.
+(* the order in which a replicate lists its parameters is irrelevant *)
+Theorem bootstrap_label_order_irrelevant :
+  forall sqrtq reps reps' orig p,
+    Forall2 (fun r r' => Permutation r r' /\ NoDup (map fst r)) reps reps' ->
+    doc_boot_stat sqrtq reps orig p = doc_boot_stat sqrtq reps' orig p.
+Proof. exact bootstrap_label_order_lemma. Qed.
+
+(* cdd: entry (a, b) of compute_jackknife_covariance_matrix on the case table is (N-1)/N * sum over the cases of
+   (theta_p - mean_p)(theta_q - mean_q) for the parameters p, q NAMED by columns a, b *)
+Theorem jackknife_by_name :
+  forall cols cases a b p q,
+    nth_error cols a = Some p -> nth_error cols b = Some q ->
+    jackknife (rows_of_cases cols cases) a b = doc_jackknife cases p q.
+Proof. exact jackknife_by_name_lemma. Qed.
+(* Cook score sqrt(x^T C^-1 x), x = case estimate - base estimate by name in the order of the covariance labels:
+   independent of the label order of the case estimates and of the base estimates (since fix 7b6cdfd) *)
+Theorem cook_case_label_order_irrelevant :
+  forall sqrtq labels cinv base est est',
+    NoDup (map fst est) -> Permutation est est' ->
+    cook_score sqrtq labels cinv base est = cook_score sqrtq labels cinv base est'.
+Proof. exact cook_label_order_lemma. Qed.
+Theorem cook_base_label_order_irrelevant :
+  forall sqrtq labels cinv base base' est,
+    NoDup (map fst base) -> Permutation base base' ->
+    cook_score sqrtq labels cinv base est = cook_score sqrtq labels cinv base' est.
+Proof. exact cook_base_order_lemma. Qed.
+
+(* shrinkage of the j-th eta with sample variance v and omega om: 1 - v / om, resp. 1 - sd / sqrt(om);
+   individual shrinkage: diag(cov_i) / omega *)
+Theorem eta_shrinkage_def :
+  forall sqrtq omegas ie j e col om v,
+    nth_error ie j = Some (e, col) -> nth_error omegas j = Some om -> var_l (avail col) = Some v ->
+    eta_shrinkage sqrtq false omegas ie j = (if Qeq_bool om 0 then None else Some (1 - v / om)%Q) /\
+    eta_shrinkage sqrtq true omegas ie j = Some (1 - sqrtq v / sqrtq om)%Q.
+Proof. exact eta_shrinkage_def_lemma. Qed.
+Theorem individual_shrinkage_def :
+  forall omegas diag j d om,
+    nth_error diag j = Some d -> nth_error omegas j = Some om ->
+    nth_error (individual_shrinkage omegas diag) j = Some (if Qeq_bool om 0 then None else Some (d / om)%Q).
+Proof. exact individual_shrinkage_def_lemma. Qed.
+(* delta method: sqrt(g^T C g) over the symbols of the expression, in the order of the covariance labels *)
+Theorem se_delta_def :
+  forall sqrtq labels cov grad,
+    se_delta sqrtq labels cov grad =
+    sqrtq (quad (map (fun n => match lookup n grad with Some g => g | None => 0%Q end) (delta_names labels (map fst grad)))
+                (submatrix labels (delta_names labels (map fst grad)) cov)).
+Proof. exact se_delta_def_lemma. Qed.
+
+(* ---- calculate_bic_penalty for MFL search spaces (get_penalty_parameters_mfl; the expansion of the MFL strings is the
+   oracle of property C18: the expanded attributes are the inputs) *)
+
+(* p and k_p are the sums of the per-attribute contributions (absorption, elimination, transits, peripherals, lagtime) *)
+Theorem mfl_counts_are_sums :
+  forall m e,
+    elim_counts (mf_elim m) = Ok e ->
+    mfl_counts m = Ok ((fst (abs_counts (mf_abs m)) + (fst e + (fst (trans_counts (mf_trans m))
+                         + (fst (per_counts (mf_per m)) + fst (lag_counts (mf_lag m))))))%Z,
+                       (snd (abs_counts (mf_abs m)) + (snd e + (snd (trans_counts (mf_trans m))
+                         + (snd (per_counts (mf_per m)) + snd (lag_counts (mf_lag m))))))%Z).
+Proof. exact mfl_counts_sum. Qed.
+(* an attribute with a single option in the search space contributes nothing: with one option everywhere p = k_p = 0 *)
+Theorem mfl_single_option_no_penalty :
+  forall ab el tr pe la a c e ce ssd cnts cd c0 pc on,
+    ab = Some ([a], c) -> el = Some ([e], ce) -> tr = Some (1, ssd, cnts, cd, c0) -> pe = Some (1, pc) -> la = Some (1, on) ->
+    mfl_counts (mkMfl ab el tr pe la) = Ok (0, 0)%Z.
+Proof. exact mfl_single_option_lemma. Qed.
+Theorem mfl_lagtime_counts : forall len on, len <> 1 -> lag_counts (Some (len, on)) = (1%Z, if on then 1%Z else 0%Z).
+Proof. exact lag_counts_def. Qed.
+Theorem mfl_peripherals_counts : forall len c0, len <> 1 -> per_counts (Some (len, c0)) = ((Z.of_nat len - 1)%Z, c0).
+Proof. exact per_counts_def. Qed.
